@@ -8,7 +8,7 @@ logger = logging.getLogger(__name__)
 
 order_to_symbol = {0: '.', 1: '-', 1.5: ':', 2: '=', 3: '#', 4: '$'}
 
-def format_node(molecule, current):
+def format_node(molecule, current, name_attr='fragname'):
     """
     Format a node from a `molecule` graph according to
     the CGsmiles syntax. The attribute fragname has to
@@ -24,7 +24,9 @@ def format_node(molecule, current):
     str
         the formatted string
     """
-    node = "[#{}]".format(molecule.nodes[current]['fragname'])
+    # coarse fragment graphs keep a node's own name in `atomname`, `fragname` is the fragment's name
+    name = molecule.nodes[current].get(name_attr, molecule.nodes[current]['fragname'])
+    node = "[#{}]".format(name)
     return node
 
 def format_bonding(bonding):
@@ -53,7 +55,7 @@ def format_bonding(bonding):
         bond_str += "["+str(bonding_descrpt[:-1])+"]"
     return bond_str
 
-def write_graph(molecule, smiles_format=False, default_element='*'):
+def write_graph(molecule, smiles_format=False, default_element='*', name_attr='fragname'):
     """
     Creates a CGsmiles string describing `molecule`.
     `molecule` should be a single connected component.
@@ -126,7 +128,7 @@ def write_graph(molecule, smiles_format=False, default_element='*'):
         if smiles_format:
             smiles += format_atom(molecule, current, default_element)
         else:
-            smiles += format_node(molecule, current)
+            smiles += format_node(molecule, current, name_attr)
 
         # we add the bonding descriptors if there are any
         if molecule.nodes[current].get('bonding', False):
@@ -215,7 +217,8 @@ def write_cgsmiles_fragments(fragment_dict, smiles_format=True):
     for fragname, frag_graph in fragment_dict.items():
         fragment_str += f"#{fragname}="
         # format graph depending on resolution
-        fragment_str += write_graph(frag_graph, smiles_format=smiles_format) + ","
+        # nodes of a coarse fragment keep their own name in `atomname`
+        fragment_str += write_graph(frag_graph, smiles_format=smiles_format, name_attr='atomname') + ","
     fragment_str = "{" + fragment_str[:-1] + "}"
     return fragment_str
 
